@@ -117,9 +117,27 @@ def run(ctx, args):
             f.write("import LlgoVerif.Lemmas.Arith\n/-! REGENERATED on every run of ./check C02 from the IR llgo emits for harness/irgen/opsgen.py. Do not edit. -/\n"
                     "namespace LlgoVerif.Gen.C02\nopen LlgoVerif LlgoVerif.LLVM LlgoVerif.Arith\n\n" + "\n".join(ch) + "\nend LlgoVerif.Gen.C02\n")
         gen_files.append(rel)
-    mods = [g[:-5].replace("/", ".") for g in gen_files] + ["LlgoVerif.Props.C02"]
-    st = lean_check(ctx, mods, gen_files + ["LlgoVerif/Props/C02.lean"],
-                    extra_files=["LlgoVerif/Lemmas/Arith.lean", "LlgoVerif/Model/LLVM.lean", "LlgoVerif/Spec/GoArith.lean"],
+    fl = float_build(ctx)
+    frel = "LlgoVerif/Gen/C02_float.lean"
+    fchunks = []
+    for c in fl["cases"]:
+        if not fopsgen.has_obligation(c):
+            continue
+        nm = "verifprog/fops." + c["name"]
+        try:
+            if nm not in fl["fns"]:
+                raise ir2lean.Unsupported("function missing from the IR")
+            fchunks.append(ir2lean.translate_function(nm, c["name"], *fl["fns"][nm]) + "\n" + fopsgen.theorem(c))
+        except ir2lean.Unsupported as e:
+            untranslated[c["name"]] = str(e)
+    with open(os.path.join(LEAN, frel), "w") as f:
+        f.write("import LlgoVerif.Lemmas.FloatOps\n/-! REGENERATED on every run of ./check C02 from the IR llgo emits for harness/irgen/fopsgen.py. Do not edit. -/\n"
+                "namespace LlgoVerif.Gen.C02F\nopen LlgoVerif LlgoVerif.LLVM LlgoVerif.FloatOps\n\n" + "\n".join(fchunks) + "\nend LlgoVerif.Gen.C02F\n")
+    gen_files.append(frel)
+    mods = [g[:-5].replace("/", ".") for g in gen_files] + ["LlgoVerif.Props.C02", "LlgoVerif.Props.C02Float"]
+    st = lean_check(ctx, mods, gen_files + ["LlgoVerif/Props/C02.lean", "LlgoVerif/Props/C02Float.lean"],
+                    extra_files=["LlgoVerif/Lemmas/Arith.lean", "LlgoVerif/Model/LLVM.lean", "LlgoVerif/Spec/GoArith.lean", "LlgoVerif/Lemmas/FloatOps.lean",
+                                 "LlgoVerif/Model/SoftFloat.lean", "LlgoVerif/Model/LLVMFloat.lean", "LlgoVerif/Spec/GoFloat.lean", "LlgoVerif/Model/GoComplex.lean"],
                     leanchecker=False)
     ctx.obligations += len(untranslated)
     for n, why in untranslated.items():
@@ -184,14 +202,15 @@ def run(ctx, args):
     if silent:
         ctx.report_broken("C02 obligations: " + ", ".join(silent[:6]) + (" (+%d more)" % (len(silent) - 6) if len(silent) > 6 else ""),
                           {"theorems": {n: st.get(n, untranslated.get(n.split(":")[-1])) for n in silent[:50]}})
-    fstats = float_phase(ctx, quick)
+    fstats = float_phase(ctx, quick, fl, modeld, failed_fn)
     ctx.coverage["samples"] = [obligations.theorem(obs[0]).strip(), lines_real[0] + "  -> spec " + spec_out[0],
                                {"function": "Shl_int32_uint64", "ir_lean": [c for ch in chunks for c in ch if c.startswith("def Shl_int32_uint64 ")][:1]}]
     ctx.coverage["trusted_base"] += [
         "Lean semantics of the straight-line integer LLVM subset (Model/LLVM.lean, poison = none, UB = Trap.ub) and the textual IR->Lean translator harness/irgen/ir2lean.py (fails loudly outside the subset)",
         "Spec/GoArith.lean: Go's arithmetic stated on Int values (wrap, truncated division, 2^n shifts); evaluation-safe forms proved equal in Lemmas/Arith.lean",
         "execution tie: llgo-compiled evaluator (-O0%s) on boundary x boundary + random operands vs modeld_c02" % (", -O2" if have_o2 else ""),
-        "floats and complex numbers are NOT covered by a theorem (Lean's Float is opaque to the kernel)",
+        "floats: Model/SoftFloat.lean (IEEE-754 binary32/64, round to nearest even, exact intermediate + one rounding) is the meaning of BOTH the LLVM float instructions (Model/LLVMFloat.lean) and Go's float operators (Spec/GoFloat.lean): the regenerated float obligations therefore establish the SHAPE of the lowering (one operation in the operand's own format, the Go predicate, sitofp/uitofp by source signedness, float->int defined wherever Go defines it); that the hardware and LLVM agree with SoftFloat is checked by execution only",
+        "complex numbers: Model/GoComplex.lean is a hand model of ssa/expr.go's complex lowering and runtime.Complex128Div, tied by execution (tie B) and cross-checked against the reference toolchain; no theorem quantifies over complex operands",
     ]
     ctx.assumptions += ["LLVM 14 code generation and optimiser implement the LangRef semantics of the instructions used"]
     return ctx.finish("proof", {
@@ -231,9 +250,8 @@ def i2f_rounding(w, fw, rng):
     return out
 
 
-def float_phase(ctx, quick):
-    """floats and complex numbers: differential execution against the reference Go toolchain (no theorem)"""
-    rng = ctx.rng
+def float_build(ctx):
+    """compile the float/complex operator package: reference toolchain, llgo -O0 (with IR dump: the regenerated model) and -O2"""
     src, cases, files = fopsgen.generate()
     d = os.path.join(ctx.scratch, "fops")
     files = dict(files)
@@ -245,10 +263,22 @@ def float_phase(ctx, quick):
     progs = []
     for lvl in ("O0", "O2"):
         out = os.path.join(d, "prog" + lvl)
-        p = llgo_build(ctx, d, out, "-" + lvl)
+        p = llgo_build(ctx, d, out, "-" + lvl, extra_args=["-gen-llfiles"] if lvl == "O0" else [])
         if p.returncode != 0:
             raise HarnessBuildError("llgo could not compile the float/complex operator package at -%s:\n%s" % (lvl, (p.stdout + p.stderr)[-2000:]))
         progs.append((lvl, out))
+    pl = run_cmd(["go", "list", "-export", "-f", "{{.Export}}", "./fops"], d, llgo_env(ctx))
+    ll = pl.stdout.strip() + ".ll"
+    fns = ir2lean.parse_functions(open(ll).read()) if os.path.exists(ll) else {}
+    return {"src": src, "cases": cases, "dir": d, "progs": progs, "fns": fns}
+
+
+def float_phase(ctx, quick, fl, modeld, failed_fn):
+    """floats and complex numbers: llgo-compiled operators (-O0, -O2) vs (1) the Lean model (Spec/GoFloat.lean over
+    Model/SoftFloat.lean; Model/GoComplex.lean for llgo's complex lowering and runtime.Complex128Div) and (2) the same
+    source built by the reference Go toolchain"""
+    rng = ctx.rng
+    src, cases, d, progs = fl["src"], fl["cases"], fl["dir"], fl["progs"]
     lines, meta = [], []
     for i, c in enumerate(cases):
         k = c["kind"]
@@ -285,7 +315,8 @@ def float_phase(ctx, quick):
     inp = "\n".join(lines) + "\n"
     _, ref_err, _ = run_prog(os.path.join(d, "ref"), input=inp, timeout=1800)
     ref = [l for l in ref_err.split("\n") if l]
-    n_eval, bad = 0, {}
+    model_out, _, _ = run_lines([modeld], [fopsgen.model_line(cases[i], o4) for (i, o4) in meta])
+    n_eval, bad, bad_model, n_model, n_impl = 0, {}, {}, 0, 0
 
     def rwidth(c):
         n = c["name"]
@@ -317,11 +348,27 @@ def float_phase(ctx, quick):
                 rv = [str(int(x) & m) for x in rv]
             if gv != rv:
                 bad.setdefault(cases[i]["name"], []).append((lvl, o4, gv, rv))
+            mo = model_out[k_] if k_ < len(model_out) else "missing"
+            if mo == "impl":
+                n_impl += 1
+                continue
+            n_model += 1
+            mv = [canon(int(x), rw) if x.isdigit() else x for x in mo.split(" ")]
+            if gv != mv:
+                bad_model.setdefault(cases[i]["name"], []).append((lvl, o4, gv, mv))
     for name, lst in sorted(bad.items()):
         lvl, o4, gv, rv = lst[0]
         ctx.report("farith:%s" % name, "%s%s = %s at -%s (bit patterns), the reference toolchain gives %s" % (name, o4, gv, lvl, rv),
                    {"function": name, "operands_bits": o4, "llgo": gv, "reference": rv, "opt": lvl, "more": lst[1:6]})
+    for name, lst in sorted(bad_model.items()):
+        if name in bad:
+            continue      # already reported against the reference toolchain
+        lvl, o4, gv, mv = lst[0]
+        ctx.report("fmodel:%s" % name, "%s%s = %s at -%s (bit patterns), the Lean model (IEEE-754 round-to-nearest-even / llgo's complex lowering) gives %s" % (name, o4, gv, lvl, mv),
+                   {"function": name, "operands_bits": o4, "llgo": gv, "model": mv, "opt": lvl, "more": lst[1:6],
+                    "model_request": fopsgen.model_line([c for c in cases if c["name"] == name][0], o4)})
     return {"functions": len(cases), "lines_per_level": len(lines), "evaluations": n_eval, "functions_with_wrong_results": sorted(bad),
+            "model_evaluations": n_model, "model_left_open_by_go": n_impl, "functions_differing_from_the_lean_model": sorted(bad_model),
             "oracle": "same source built with the reference Go toolchain; NaN payloads canonicalised; float->int only on representable operands"}
 
 
